@@ -406,6 +406,17 @@ def replay_parse(ctx, payload):
         ctx.violation(payload["signature"], payload["what"], dict(kind="parse", case=payload["case"]))
 
 
+def replay_loader(ctx, payload):
+    d = ctx.sub("replay")
+    src = os.path.join(d, "case.ndjson")
+    open(src, "w").write(json.dumps(payload["case"]) + "\n")
+    st = ctx.harness_json(["loader", "-in", src, "-out", os.path.join(d, "o")])
+    ctx.cov["evaluations"] = 1
+    ctx.cov["traces_validated_against_impl"] = 1
+    if st["mismatches"]:
+        ctx.violation(payload["signature"], payload["what"], dict(kind="loader", case=payload["case"]))
+
+
 def replay_fx(ctx, payload):
     d = ctx.sub("replay")
     src = os.path.join(d, "case.ndjson")
@@ -452,12 +463,24 @@ def check_C10(ctx):
                        "A generic tokenizer logs the line structure; TLC checks on each recorded read: no panic; a successful read is well-formed, legal under '88, and has exactly one instruction per "
                        "effective non-directive line before the end marker (nothing skipped silently). No predicted acceptance is compared. distinct_nontrivial = accepted texts.")
     ctx.cov["trusted_base"] = ["generic line tokenizer (harness/tools.go lineStructure)", "harness/enc.go tables", "TLC"]
+    # spec -> code: the reader as a line machine (Loader.tla); every sequence of up to L line shapes, replayed
+    path, ncases, rl = tlc_cases(ctx, "Loader_emit.cfg" if ctx.quick else "Loader_emit_thorough.cfg", module="Loader")
+    outp = os.path.join(ctx.sub("loader"), "lo")
+    stl = ctx.harness_json(["loader", "-in", path, "-out", outp])
+    if stl["cases"] != ncases and stl["mismatches"] == 0:
+        raise ToolError("loader replayed %d of %d cases" % (stl["cases"], ncases))
+    ctx.notes["spec_model"] = "Loader.tla: %d line sequences; Sound holds; all replayed through ParseLoadFile (reader stricter than the model on %d)" % (ncases, stl["reader_stricter_than_model"])
+    for e in read_lines(outp + ".000.ndjson")[:15]:
+        kind = "panic" if e["panic"] else ("accepts what cannot be represented" if e["wanterr"] else "result differs")
+        ctx.violation("C10 loader model %s dialect=%s" % (kind, e["d"]), "load file %r (dialect %s): model %s, real reader %s" % (
+            e["text"], e["d"], "error" if e["wanterr"] else (e["want"], e["wantstart"]), "error" if e["goterr"] else (e["got"], e["gotstart"])), dict(kind="loader", case=e["case"]))
+    ctx.sample(read_line(path, min(ncases, 30000)))
     shards, st = gen_asm(ctx, "loadcorrupt", ["-shards", 16 if ctx.quick else 128, "-n", 4000 if ctx.quick else 400000], "c10")
     rej, _ = validate_asm(ctx, shards, "C10", module="ToolTrace")
     ctx.binding_selftest("ToolTrace", shards, "C10")
-    ctx.cov["traces_validated_against_impl"] = st["texts"]
-    ctx.cov["evaluations"] = st["texts"]
-    ctx.cov["distinct_nontrivial"] = st["accepted"]
+    ctx.cov["traces_validated_against_impl"] = st["texts"] + ncases
+    ctx.cov["evaluations"] = st["texts"] + ncases
+    ctx.cov["distinct_nontrivial"] = st["accepted"] + ncases
     ctx.cov["states"] = max(ctx.cov["states"], 1)
     ctx.notes.update(st)
     ctx.sample(read_line(shards[0], 3))
